@@ -265,23 +265,27 @@ fn main() {
         return;
     }
 
+    // `--only s`: the header-population stream alone (the BMP peer call site of the ingress register; tie of C14)
+    let only_s = args.rest.windows(2).any(|w| w[0] == "--only" && w[1] == "s");
     // ---- witnesses first
     let s = |x: &[&str]| -> Vec<String> { x.iter().map(|t| t.to_string()).collect() };
     for k in 1..headers().len() { emit(&mut rec, run_session(&[0, k], &s(&["U0", &format!("U{k}")]))); } // C02_identity_counterexample and its siblings
     emit(&mut rec, run_session(&[0, 1], &s(&["U0", "U1", "D1", "U1", "D0"])));
     let p = pool[2].show();
     let ann = |r: usize, k: usize, a: u32| format!("m{r}.{k}=u;0;{a};u{p};-;c");
+    if !only_s {
     emit(&mut rec, run_world(&[(1, 2), (2, 1)], &s(&["c0", "u0.0", "u0.1", "c1", "u1.0", &ann(0, 0, 3), &ann(0, 1, 4), &ann(1, 0, 5), "d0.0", "t1", "x0"]), &[pool[2]]));
     emit(&mut rec, run_world(&[(1, 1), (1, 1)], &s(&["c0", "u0.0", "c1", "u1.0", &ann(0, 0, 3), &ann(1, 0, 5), "x0"]), &[pool[2]])); // two routers, one address
     emit(&mut rec, run_world(&[(1, 1)], &s(&["c0", "u0.0", &ann(0, 0, 3), "a3.v4u", "a3.other"]), &[pool[2]]));
+    }
 
     // ---- generated
     let mut rng = Rng::new(args.seed);
-    let budget = if args.thorough { 300.0 } else { 35.0 };
+    let budget = if only_s { if args.thorough { 60.0 } else { 10.0 } } else if args.thorough { 300.0 } else { 35.0 };
     let max_cases = if args.thorough { 30_000 } else { 3000 };
     let mut n = 0;
     while n < max_cases && t0.elapsed().as_secs_f64() < budget {
-        if rng.chance(3, 4) { let (rs, ops) = gen_world(&mut rng, &pool, &mut rec); emit(&mut rec, run_world(&rs, &ops, &pool)); }
+        if !only_s && rng.chance(3, 4) { let (rs, ops) = gen_world(&mut rng, &pool, &mut rec); emit(&mut rec, run_world(&rs, &ops, &pool)); }
         else { let (sel, ops) = gen_session(&mut rng, &mut rec); emit(&mut rec, run_session(&sel, &ops)); }
         n += 1;
     }
